@@ -9,21 +9,21 @@ claim(
 claim(
     'C06',
     'proof',
-    "Commit discipline of the lazily-committing sqlite store decided on every path of every writing method (must-pass-through commit / conditional_commit with the right row count, threshold <= 60, counter reset, no split bucket operation, no foreign writer); the auto-committing store opens no transaction. Together with SQLite's transaction semantics this bounds the lost tail for every history and crash point. Nothing can roll the open transaction back (NO-ROLLBACK).",
+    "Commit discipline of the lazily-committing sqlite store decided on every path of every writing method (must-pass-through commit / conditional_commit with the right row count, threshold <= 60, counter reset, no split bucket operation, no foreign writer); the auto-committing store opens no transaction. Together with SQLite's transaction semantics this bounds the lost tail for every history and crash point. Nothing can roll the open transaction back (NO-ROLLBACK). A handler around conn.commit() must re-raise (a failed flush is not booked as a flush); on the auto-committing store a single-event operation is at most one writing statement per path (PW-ATOMIC).",
     'Trusted: SQLite/WAL loses exactly the statements since the last conn.commit(), each statement atomically; peewee autocommits outside atomic(). What the file holds after SIGKILL is not decided here.',
     'must-pass-through / dominance queries on per-method CFGs over DML sites classified by the embedded-SQL model; who-may-call scan',
 )
 claim(
     'C18',
     'proof',
-    'The age test of conditional_commit is canonicalised to an affine literal over {clock, last_commit}; its sign, constant (1..15 s) and placement (evaluated on every lazy path that has not committed, true branch commits) are decided, as is that commit() stamps last_commit and that every event write reaches conditional_commit. The stamps and the age test read the same clock (AGE-STAMP one-clock clause) and no event write flushes before it writes (AGE-FRESH).',
+    'The age test of conditional_commit is canonicalised to an affine literal over {clock, last_commit}; its sign, constant (1..15 s) and placement (evaluated on every lazy path that has not committed, true branch commits) are decided, as is that commit() stamps last_commit and that every event write reaches conditional_commit. The stamps and the age test read the same clock (AGE-STAMP one-clock clause) and no event write flushes before it writes (AGE-FRESH). A failed commit is not stamped.',
     'Trusted: non-decreasing wall clock; durability of conn.commit() (C06).',
     'affine canonicalisation of the comparison + CFG placement (must-pass-through) queries',
 )
 claim(
     'C02',
     'other',
-    "Necessary structural clauses of the list-model equivalence, each decided for all ids, instants and histories: replace_last's target selection has the same descriptor (scope, order key, direction, limit 1) as a limit-1 read; delete/replace/lookup address exactly (event id, bucket); insert_many's partitions are complementary and routed to update-by-id / INSERT-without-id; ids are engine-allocated unique keys (schema) or max+1 over the bucket (memory). The SQL backends' encode/decode tables and scale constants agree at every write and read site (CODEC), so what is written is what a list would hold.",
+    "Necessary structural clauses of the list-model equivalence, each decided for all ids, instants and histories: replace_last's target selection has the same descriptor (scope, order key, direction, limit 1) as a limit-1 read; delete/replace/lookup address exactly (event id, bucket); insert_many's partitions are complementary and routed to update-by-id / INSERT-without-id; ids are engine-allocated unique keys (schema) or max+1 over the bucket (memory). The SQL backends' encode/decode tables and scale constants agree at every write and read site (CODEC), so what is written is what a list would hold. OWN-IN/OWN-OUT (E2) for the event methods, INSERT-PATHS of the Bucket wrapper and NO-ROLLBACK are included.",
     'Equality with the reference list model after every step of every history is NOT decided (it is a refinement proof over unbounded histories). Trusted: SQL semantics of the modelled subset, peewee builder translation.',
     'embedded-SQL / query-chain descriptor comparison, list-pipeline descriptors for the memory backend, comprehension-condition complementarity',
 )
@@ -37,21 +37,21 @@ claim(
 claim(
     'C07',
     'other',
-    "aw-core's share of the ingestion loop: the 'newest event' read by get(limit=1) and rewritten by replace_last is the same row under the stream assumption (order key = start instant in all three backends, same scope), replace_last changes only instant/duration/data of that row, and the Bucket wrappers are pass-throughs. The merge rule is C08. What the loop reads back is what was written: encode/decode agreement of the SQL backends (CODEC).",
+    "aw-core's share of the ingestion loop: the 'newest event' read by get(limit=1) and rewritten by replace_last is the same row under the stream assumption (order key = start instant in all three backends, same scope), replace_last changes only instant/duration/data of that row, and the Bucket wrappers are pass-throughs. The merge rule is C08. What the loop reads back is what was written: encode/decode agreement of the SQL backends (CODEC). NO-ROLLBACK: an accepted heartbeat is not discarded by a later failing operation.",
     'The ingestion loop itself lives in aw-server, and whole-stream equality with heartbeat_reduce is an inductive argument that is not machine-checked here.',
     'embedded-SQL / query-chain descriptor comparison + pass-through (parameter forwarding) checks',
 )
 claim(
     'C08',
     'proof',
-    "heartbeat_merge is loop-free: all CFG paths are enumerated, the merging path's literal set is canonicalised to affine forms and must equal {data equal, last.ts <= hb.ts <= last.ts + last.dur + pulsetime, last.dur >= 0} with non-strict bounds, its only field write must be last.duration := max(last.dur, hb.ts - last.ts + hb.dur), every other path returns None and writes nothing; heartbeat_reduce must have the left-fold shape (seed, argument order, replace-last / append branches). For loop-free affine code, equality of canonical forms is equality of behaviour.",
+    "heartbeat_merge is loop-free: all CFG paths are enumerated, the merging path's literal set is canonicalised to affine forms and must equal {data equal, last.ts <= hb.ts <= last.ts + last.dur + pulsetime, last.dur >= 0} with non-strict bounds, its only field write must be last.duration := max(last.dur, hb.ts - last.ts + hb.dur), every other path returns None and writes nothing; heartbeat_reduce must have the left-fold shape (seed, argument order, replace-last / append branches). For loop-free affine code, equality of canonical forms is equality of behaviour. Shortcuts before the fold are taken only for fewer than two events.",
     'Trusted: datetime/timedelta arithmetic is exact integer microsecond arithmetic; dict equality. The normal-form consequences (no two consecutive outputs mergeable, idempotence, coverage) follow on paper from MERGE+FOLD and are not machine-checked.',
     'exhaustive CFG path enumeration + affine canonicalisation of path literals and assignments (constant propagation), fold-shape matching',
 )
 claim(
     'C01',
     'proof',
-    "'The store owns its copy' decided for all inputs by an access-path points-to / ownership analysis of all 13 interface methods x 3 backends: no mutable object reachable from a parameter stays reachable from the store (OWN-IN) and nothing returned shares an object with the store (OWN-OUT). The first sentence is claimed only through necessary conditions: the SQL backends' encode/decode tables and scale constants agree at every write and read site (CODEC), ids are engine-allocated unique keys / max+1 per bucket, Bucket.insert reaches exactly one backend write per path. The window-less listing is claimed through the PRED rule as well (the predicate is the inclusive intersection and an absent edge binds a sentinel that excludes no representable instant).",
+    "'The store owns its copy' decided for all inputs by an access-path points-to / ownership analysis of all 13 interface methods x 3 backends: no mutable object reachable from a parameter stays reachable from the store (OWN-IN) and nothing returned shares an object with the store (OWN-OUT). The first sentence is claimed only through necessary conditions: the SQL backends' encode/decode tables and scale constants agree at every write and read site (CODEC), ids are engine-allocated unique keys / max+1 per bucket, Bucket.insert reaches exactly one backend write per path. The window-less listing is claimed through the PRED rule as well (the predicate is the inclusive intersection and an absent edge binds a sentinel that excludes no representable instant). A roll-back of the shared transaction (NO-ROLLBACK), a quantising column declaration (CODEC) and ids assigned over a whole-list deepcopy (IDALLOC) are covered too.",
     'Not decided: equality of instants to the millisecond and durations to the microsecond for 1970..2100 (float*1e6, INTEGER affinity, DECIMAL text, julianday) - numeric, not visible in code shape. Trusted: deepcopy yields a disjoint graph; json/SQLite hold no Python references.',
     'flow-sensitive access-path points-to / escape analysis with context-sensitive inlining; writer/reader table agreement over the embedded-SQL model',
 )
@@ -65,77 +65,77 @@ claim(
 claim(
     'C10',
     'other',
-    'Decided for all inputs: flood does not modify its input (points-to analysis); only events with duration > 0 are returned; pairs are consecutive elements of the timestamp-sorted copy; the fill branch is entered on gap <= pulsetime (non-strict) and no other gap condition excludes a positive gap; in each of the four fill sub-branches the assignments, propagated as affine forms, close the gap exactly without losing covered time or creating overlap (differing data) or merge into one covering event and empty the other (equal data). Completeness of the threshold: every loop-body path that writes nothing implies gap <= 0 or gap > pulsetime; every early return hands back an empty list.',
+    'Decided for all inputs: flood does not modify its input (points-to analysis); only events with duration > 0 are returned; pairs are consecutive elements of the timestamp-sorted copy; the fill branch is entered on gap <= pulsetime (non-strict) and no other gap condition excludes a positive gap; in each of the four fill sub-branches the assignments, propagated as affine forms, close the gap exactly without losing covered time or creating overlap (differing data) or merge into one covering event and empty the other (equal data). Completeness of the threshold: every loop-body path that writes nothing implies gap <= 0 or gap > pulsetime; every early return hands back an empty list. Event fields are written only inside the sweep; the Event.duration setter stores what it is given (C13-DURATION).',
     'The property proper - non-overlap, coverage and label monotonicity over chains of three and more events - depends on how these local steps compose while the loop mutates neighbours; no static argument in reach decides it and it is NOT claimed.',
     'points-to purity analysis; loop-body path enumeration with constant propagation of affine forms and pairwise infeasible-path pruning',
 )
 claim(
     'C15',
     'other',
-    'Decided for all inputs: neither input list nor any input event is modified (points-to analysis); list one comes back intact (no write targets anything flowing from it, each index advance is paired with exactly one append on every loop-body path, the tail is appended); _split_event partitions an event exactly at a strictly interior cut into two deep copies (affine post-conditions on its only splitting path); list two is cut at the end / start of the current list-one event and only split pieces or untouched elements enter the result. Every return goes through the sweep unless one list is empty (RESULT).',
+    'Decided for all inputs: neither input list nor any input event is modified (points-to analysis); list one comes back intact (no write targets anything flowing from it, each index advance is paired with exactly one append on every loop-body path, the tail is appended); _split_event partitions an event exactly at a strictly interior cut into two deep copies (affine post-conditions on its only splitting path); list two is cut at the end / start of the current list-one event and only split pieces or untouched elements enter the result. Every return goes through the sweep unless one list is empty (RESULT). List one is only re-bound to a whole-list copy, the sweep has no nested loop, and an untrimmed list-two event is emitted only behind `not intersects`.',
     'Non-overlap and coverage of the final result for every interleaving is a loop invariant over a list that grows while it is swept; it is NOT decided.',
     'points-to purity / write-set analysis; path enumeration with constant propagation of affine forms; pairing rule on loop-body paths',
 )
 claim(
     'C16',
     'other',
-    "Decided for all inputs: none of the eight functions modifies its input (points-to analysis); merge_events_by_keys' group key is injective in (presence, value) per key (positional on every path of the key loop, or tagged); each event's duration is added exactly once to exactly one group / chunk and there is one output per group; sort / limit / filter / sum have the stated shapes with complementary filter polarity. chunk_events_by_key leaves the loop / skips an event only under `key not in event.data`.",
+    "Decided for all inputs: none of the eight functions modifies its input (points-to analysis); merge_events_by_keys' group key is injective in (presence, value) per key (positional on every path of the key loop, or tagged); each event's duration is added exactly once to exactly one group / chunk and there is one output per group; sort / limit / filter / sum have the stated shapes with complementary filter polarity. chunk_events_by_key leaves the loop / skips an event only under `key not in event.data`. filter_keyvals shortcuts depend only on the event list being empty.",
     'Exactness of float sums and behaviour on unhashable values are not decided.',
     'points-to purity analysis; loop-body path enumeration for key injectivity; structural pairing rules',
 )
 claim(
     'C19',
     'proof',
-    'Write-sets of categorize, tag, split_url_events and simplify_string computed by the points-to/effect analysis through every inlined callee: below the events parameter (or its deep copy) only event.data[<own keys>] is assigned - never timestamp, duration, id, another data key, a del or a list mutation - and the result is the same events in the same order. Category/tag choice (left fold, non-strict depth comparison so the later rule wins ties, matches in rule order) and Rule.match (None for empty regex, selected keys or all values, str values only, found-anywhere call, IGNORECASE iff asked) are decided against their specified shape.',
+    "Write-sets of categorize, tag, split_url_events and simplify_string computed by the points-to/effect analysis through every inlined callee: below the events parameter (or its deep copy) only event.data[<own keys>] is assigned - never timestamp, duration, id, another data key, a del or a list mutation - and the result is the same events in the same order. Category/tag choice (left fold, non-strict depth comparison so the later rule wins ties, matches in rule order) and Rule.match (None for empty regex, selected keys or all values, str values only, found-anywhere call, IGNORECASE iff asked) are decided against their specified shape. URL-KEYS: the six $-keys are the matching urlparse attributes, $domain drops exactly one leading 'www.'.",
     'Regex semantics and URL parsing results are trusted.',
     'access-path write-set (effect) analysis with context-sensitive inlining; affine canonicalisation of the tie-break literal; shape matching of Rule',
 )
 claim(
     'C12',
     'proof',
-    "'Leaves the store unchanged' decided for every program: the set of writers is computed (SQL DML/DDL sites, peewee write chains / save(), writes below the memory containers found by the effect analysis, closed under 'calls a writer') and is disjoint from everything reachable from query() in the resolved call graph (function registry, both decorator wrappers, token-class dispatch, aw_transform). In-place annotating/clearing/re-timing transforms act on copies: the read methods reachable from queries return nothing that shares an object with the store (OWN-OUT). query_bucket / query_bucket_eventcount are literally a direct windowed read over the query's start and end of the function's own bucket argument, with no limit.",
+    "'Leaves the store unchanged' decided for every program: the set of writers is computed (SQL DML/DDL sites, peewee write chains / save(), writes below the memory containers found by the effect analysis, closed under 'calls a writer') and is disjoint from everything reachable from query() in the resolved call graph (function registry, both decorator wrappers, token-class dispatch, aw_transform). In-place annotating/clearing/re-timing transforms act on copies: the read methods reachable from queries return nothing that shares an object with the store (OWN-OUT). query_bucket / query_bucket_eventcount are literally a direct windowed read over the query's start and end of the function's own bucket argument, with no limit. STATELESS: nothing reachable from query() writes a module-level container (E2).",
     "Trusted: call resolution of the program model (calls it cannot resolve inside the reachable set are listed in evidence; they are builtins / third-party calls on values that are not the datastore), C01's trusted base. A vanished must-reach / must-write anchor is exit 2, so the zero-expected rule cannot pass vacuously.",
     'computed writer set ∩ call-graph reachability (type-resolved callees, registry and decorator dispatch) + points-to OWN-OUT + reaching-definition check of the window arguments',
 )
 claim(
     'C13',
     'other',
-    "Decided for all inputs: every store to an Event's timestamp/duration key anywhere in the packages goes through the property setters (who-may-write, with a positive fixture) and __init__ assigns all four fields through the properties on every path; the timestamp setter's value passes through iso8601 parsing (strings), a floor-to-1000 microsecond idiom on every path, UTC attachment exactly for naive values, and astimezone(UTC); the duration setter is a total type dispatch (timedelta as is, Real as seconds, else TypeError); to_json_dict, Event.__init__'s keywords, the published schema and __eq__ agree on keys and encodings.",
+    "Decided for all inputs: every store to an Event's timestamp/duration key anywhere in the packages goes through the property setters (who-may-write, with a positive fixture) and __init__ assigns all four fields through the properties on every path; the timestamp setter's value passes through iso8601 parsing (strings), a floor-to-1000 microsecond idiom on every path, UTC attachment exactly for naive values, and astimezone(UTC); the duration setter is a total type dispatch (timedelta as is, Real as seconds, else TypeError); to_json_dict, Event.__init__'s keywords, the published schema and __eq__ agree on keys and encodings. The published schema admits every key with every JSON type the model's type aliases allow.",
     "Not decided: microsecond-exact float round trip of durations, the 10^6 microsecond values, the year range, iso8601's parsing of every offset.",
     'who-may-write scan over the parsed program; CFG post-dominance of the normalisation steps; integer-idiom canonicalisation; path summaries of the type dispatch; writer/reader key agreement incl. the JSON schema file',
 )
 claim(
     'C20',
     'proof',
-    "'Never alters an existing user file' decided on load_config_toml's CFG: every file-writing construct is reachable only through the false edge of the existence test on the same, never re-bound path, and no reachable callee writes files. The overlay law of _merge decided path by path on its loop body (user-only key copied, two tables merged recursively in the same order, leaf overridden or left when equal, nothing deleted, first argument returned) plus the argument order (defaults, user) at the call site and the returned value. The first-run file is the commented-out defaults and the user document is empty on that branch. A key of the user's document that is neither copied, merged nor equal on some path is a violation.",
+    "'Never alters an existing user file' decided on load_config_toml's CFG: every file-writing construct is reachable only through the false edge of the existence test on the same, never re-bound path, and no reachable callee writes files. The overlay law of _merge decided path by path on its loop body (user-only key copied, two tables merged recursively in the same order, leaf overridden or left when equal, nothing deleted, first argument returned) plus the argument order (defaults, user) at the call site and the returned value. The first-run file is the commented-out defaults and the user document is empty on that branch. A key of the user's document that is neither copied, merged nor equal on some path is a violation. PATH: the file consulted is <config dir>/<appname>.toml by concatenation (suffix-replacing path operations are violations).",
     'Trusted: tomlkit.parse returns dict-like containers; os.path.isfile/open semantics. TOML semantics of multi-line values are outside the property (one-line values) and not decided.',
     'CFG edge-filtered reachability (write only under not-exists), loop-body path enumeration with constant propagation, call-graph closure for file writers',
 )
 claim(
     'C05',
     'other',
-    "Structure of the bucket lifecycle decided per backend: parameter -> stored field -> listed key tables of create / update / list / describe agree on the seven metadata fields; update_bucket writes only supplied fields (each write guarded by a test of the same parameter; sqlite's SET list built from the non-None pairs); delete_bucket removes the bucket from every container that holds per-bucket state - derived from the DDL foreign keys / the peewee models / MemoryStorage.__init__ - on every normal path; the Bucket-handle cache and the peewee key cache follow creation and deletion; not-found operations reach raise ValueError / KeyError. Every keyed container a class keeps on self is evicted or rebuilt by its delete_bucket and the handle cache is filled only after the existence test (CACHES-ALL); a failed operation cannot roll back the shared transaction (NO-ROLLBACK).",
+    "Structure of the bucket lifecycle decided per backend: parameter -> stored field -> listed key tables of create / update / list / describe agree on the seven metadata fields; update_bucket writes only supplied fields (each write guarded by a test of the same parameter; sqlite's SET list built from the non-None pairs); delete_bucket removes the bucket from every container that holds per-bucket state - derived from the DDL foreign keys / the peewee models / MemoryStorage.__init__ - on every normal path; the Bucket-handle cache and the peewee key cache follow creation and deletion; not-found operations reach raise ValueError / KeyError. Every keyed container a class keeps on self is evicted or rebuilt by its delete_bucket and the handle cache is filled only after the existence test (CACHES-ALL); a failed operation cannot roll back the shared transaction (NO-ROLLBACK). OWN-IN/OWN-OUT (E2) for the bucket-level methods.",
     "Not decided: histories (stale handles, re-creation races) and equality of returned metadata values. Trusted: SQL/peewee semantics of the modelled statements; scoping of the deletes is C04's SCOPE rule.",
     'writer/reader table composition over the embedded-SQL and peewee models; CFG must-pass-through for delete coverage, cache refresh and not-found raises',
 )
 claim(
     'C14',
     'other',
-    "The migration path is run by no test; decided statically: every metadata field BucketModel.json() emits is forwarded to create_bucket on the parameter of the same meaning; id typestate (legacy events carry AutoField ids, the sqlite bulk insert only UPDATEs id-bearing events, so ids must be cleared or events rebuilt before the sink); every bucket and event is visited (no skip, negative limit, no window, the fetched list is what is inserted); only non-writers (C12's computed writer set) are called on the legacy store; the trigger fires exactly for a new default-location file after the schema is committed, and the file name / version it looks for equals what PeeweeStorage uses (finite fold over testing in {True, False}). Encode/decode agreement of both stores (CODEC) for 'same instant, duration and data'; bucket creation and event copying may be split over several loops, each of which must range over all buckets and address the bucket it is at.",
+    "The migration path is run by no test; decided statically: every metadata field BucketModel.json() emits is forwarded to create_bucket on the parameter of the same meaning; id typestate (legacy events carry AutoField ids, the sqlite bulk insert only UPDATEs id-bearing events, so ids must be cleared or events rebuilt before the sink); every bucket and event is visited (no skip, negative limit, no window, the fetched list is what is inserted); only non-writers (C12's computed writer set) are called on the legacy store; the trigger fires exactly for a new default-location file after the schema is committed, and the file name / version it looks for equals what PeeweeStorage uses (finite fold over testing in {True, False}). Encode/decode agreement of both stores (CODEC) for 'same instant, duration and data'; bucket creation and event copying may be split over several loops, each of which must range over all buckets and address the bucket it is at. Opening the legacy store runs no row-modifying statement (execute_sql text other than PRAGMA/SELECT, model writes).",
     'Not decided: byte-for-byte immutability of the legacy file (opening it runs CREATE TABLE IF NOT EXISTS and auto_migrate), numeric fidelity of migrated instants.',
     'call-site argument/parameter mapping, id typestate over derived source/sink facts, CFG path conditions for the trigger, finite constant folding of the two file-name expressions',
 )
 claim(
     'C11',
     'other',
-    "Structural necessary conditions of the hand-written front-end, each decided on the source and each with a named program that a violation mis-evaluates: every token scanner returns a partition of its input (complementary slices at one cut, or a prefix accumulator with its exact remainder); bracket depth changes only on paths outside both kinds of quotes and quote toggles honour the escape test; argument / entry loops store exactly one parsed value on every non-raising path and interpretation maps every argument, element and entry in order; statements are parsed and interpreted one at a time against the current namespace; registered functions take their injected parameters first and the wrappers forward positionally; the token-class table is exhaustive, ordered, and every class defines check/parse/interpret. The statement loop of query() has no early exit and skips only empty statements; every single-call built-in hands same-named arguments to same-named parameters; the registry wrapper's argument shuffling is folded over the four annotation cases.",
+    "Structural necessary conditions of the hand-written front-end, each decided on the source and each with a named program that a violation mis-evaluates: every token scanner returns a partition of its input (complementary slices at one cut, or a prefix accumulator with its exact remainder); bracket depth changes only on paths outside both kinds of quotes and quote toggles honour the escape test; argument / entry loops store exactly one parsed value on every non-raising path and interpretation maps every argument, element and entry in order; statements are parsed and interpreted one at a time against the current namespace; registered functions take their injected parameters first and the wrappers forward positionally; the token-class table is exhaustive, ordered, and every class defines check/parse/interpret. The statement loop of query() has no early exit and skips only empty statements; every single-call built-in hands same-named arguments to same-named parameters; the registry wrapper's argument shuffling is folded over the four annotation cases. VALUES: no built-in writes at or below its arguments except the annotation keys of C19 (effect analysis E2 over all 22 built-ins); `_parse_token` stops at the first scanner that matches, by reachability.",
     'That the scanners accept exactly the grammar and denote the right value for EVERY program (language equivalence with a reference parser/evaluator) is not a shape property and is NOT decided.',
     'slice-complementarity and prefix-accumulator rules on returns; loop-body path enumeration for quote guards and one-value-per-iteration; shape matching of interpretation and registry wrappers',
 )
 claim(
     'C17',
     'proof',
-    "Totality of the query front-end over all strings, decided without running it: every explicit raise in scope (query2.py, the two wrappers, the _verify helpers, the three bucket-access functions) is a query error by the class table of exceptions.py, the two foreign raises are shown unreachable (exhaustive overrides; datastore[x] dominated by the existence check); every may-raise site - constant-index subscript, int(), .check/.parse on a possibly-None class - is proved safe by an abstract interpretation from query() with an arbitrary string (string-shape domain {non-empty, right-stripped, all-decimal, class identity, ...} with disjunctive callee summaries); dict lookups and args[i] are dominated by their guards and the registry call's TypeError is translated; every while loop shrinks its string on each non-raising iteration and recursion descends on strict substrings. A bare re-raise inside a handler for a foreign exception class counts as raising that class.",
+    "Totality of the query front-end over all strings, decided without running it: every explicit raise in scope (query2.py, the two wrappers, the _verify helpers, the three bucket-access functions) is a query error by the class table of exceptions.py, the two foreign raises are shown unreachable (exhaustive overrides; datastore[x] dominated by the existence check); every may-raise site - constant-index subscript, int(), .check/.parse on a possibly-None class - is proved safe by an abstract interpretation from query() with an arbitrary string (string-shape domain {non-empty, right-stripped, all-decimal, class identity, ...} with disjunctive callee summaries); dict lookups and args[i] are dominated by their guards and the registry call's TypeError is translated; every while loop shrinks its string on each non-raising iteration and recursion descends on strict substrings. A bare re-raise inside a handler for a foreign exception class counts as raising that class. Calls that leave the analysed code are on a list of total functions or sit in a handler that raises a query error; closure-captured one-shot iterators are not consumed by the per-call wrappers; _verify_bucket_exists returns only behind `name in datastore.buckets()`.",
     "Outside 'parsing or name/arity/type resolution' and NOT decided: exceptions raised inside built-in bodies (bad regex, missing key in simplify_string, iso8601.ParseError in query_bucket_eventcount after a query re-binds STARTTIME), RecursionError on pathological nesting. Trusted: str.strip/slice/find and int() behave as the abstract domain models them; C11-PARTITION for the progress argument.",
     'abstract interpretation (disjunctive must-fact domain, callee summaries per abstract argument, loop fixpoints with liveness pruning) + exception class table + CFG dominance / edge-filtered reachability for guards',
 )
